@@ -213,6 +213,8 @@ def rules(ctx):
     # ------------------------------------------------------------ R14.6 / R14.7
     reset_reachability(ctx, 'R14.6')
     refresh_order(ctx, 'R14.7')
+    from .C05 import derived_from_copy
+    derived_from_copy(ctx, 'R14.6')
 
     # ------------------------------------------------------------ R14.8
     CTOR_OR_HANDOFF = {'BO.__init__', 'PCBO.__init__', '_pcso._empty_pcbo', '_info.create_from_info'} | \
